@@ -240,6 +240,7 @@ class Recorder:
                     fc=int(fl.func_count), Xn=int(fl.Xn), u=_l(b.u), u_best=_l(getattr(b, "u_best", None)),
                     yval=_f(getattr(b, "yval", None)), fval=_f(getattr(b, "fval", None)), fsd=_f(getattr(b, "fsd", None)),
                     reset_gp=bool(getattr(b, "reset_gp", False)), mesh=float(os_["mesh_size"]),
+                    smesh=_f(os_.get("search_mesh_size")), smesh_attr=_f(getattr(b, "search_mesh_size", None)),
                     level=int(os_["uncertainty_handling_level"]), SI=_f(getattr(b, "sufficient_improvement", None)))
 
     def run(self):
